@@ -283,6 +283,18 @@ T.path("core::num::wrapping_add")(_wrapping("Add"))
 T.path("core::num::wrapping_sub")(_wrapping("Sub"))
 
 
+@T.path("std::option::Option::get_or_insert", "core::option::Option::get_or_insert")
+def _opt_get_or_insert(I, a, d):
+    r = a[0]
+    o = _opt(r)
+    if o.vname == "None":
+        r.loc.set(SOME(a[1]))
+        o = r.loc.get()
+    else:
+        I.drop_value(a[1])
+    return Ref(FieldLoc(o, 0), True)
+
+
 @T.path("std::option::Option::and_then", "core::option::Option::and_then")
 def _opt_and_then(I, a, d):
     o = _opt(a[0])
@@ -1289,6 +1301,38 @@ def _slice_is_empty(I, a, d):
 @T.path("core::slice::to_vec", "slice::to_vec")
 def _slice_to_vec(I, a, d):
     return mk_vec_u8(as_sbytes(a[0]))
+
+
+@T.path("core::slice::first", "slice::first")
+def _slice_first(I, a, d):
+    v = peel(a[0])
+    if isinstance(v, SliceRef):
+        return SOME(Ref(ElemLoc(v.items, v.start))) if len(v) else NONE()
+    if isinstance(v, VecObj):
+        return SOME(Ref(ElemLoc(v.items, 0))) if v.items else NONE()
+    raise Inconclusive("slice::first on %r" % (v,))
+
+
+@T.path("core::slice::last", "slice::last")
+def _slice_last(I, a, d):
+    v = peel(a[0])
+    if isinstance(v, SliceRef):
+        return SOME(Ref(ElemLoc(v.items, v.end - 1))) if len(v) else NONE()
+    if isinstance(v, VecObj):
+        return SOME(Ref(ElemLoc(v.items, len(v.items) - 1))) if v.items else NONE()
+    raise Inconclusive("slice::last on %r" % (v,))
+
+
+@T.path("core::slice::get", "slice::get")
+def _slice_get(I, a, d):
+    v = peel(a[0])
+    i = a[1]
+    if isinstance(v, (SliceRef, VecObj)) and isinstance(i, int):
+        items = v.items
+        start = v.start if isinstance(v, SliceRef) else 0
+        n = len(v) if isinstance(v, SliceRef) else len(items)
+        return SOME(Ref(ElemLoc(items, start + i))) if 0 <= i < n else NONE()
+    raise Inconclusive("slice::get")
 
 
 @T.path("core::slice::iter", "slice::iter")
